@@ -38,6 +38,7 @@ type Solver struct {
 	NUnknown  int
 	Time      time.Duration
 	ModelTime time.Duration
+	OneShots  int
 	TimeoutMs int
 	Log       io.Writer
 	seq       int
@@ -468,4 +469,164 @@ func parseValue(so Sort, e *sexp) ModelValue {
 		}
 	}
 	return mv
+}
+
+// ---------------- one-shot (non-incremental) portfolio queries ----------------
+//
+// Bit-precise floating-point obligations are decided far faster by a fresh
+// solver process in non-incremental mode (full preprocessing) than through
+// check-sat-assuming on the long-lived process. OneShot serialises the terms
+// into a standalone script and runs z3 and cvc5 side by side; the first
+// definitive answer wins.
+
+func scriptFor(lits []*Term, vals []*Term, logic string) string {
+	var sb strings.Builder
+	if logic != "" {
+		fmt.Fprintf(&sb, "(set-logic %s)\n", logic)
+	}
+	sb.WriteString("(set-option :produce-models true)\n")
+	emitted := map[int]bool{}
+	declared := map[string]bool{}
+	var emit func(t *Term)
+	emit = func(t *Term) {
+		if t.Op == OConst || emitted[t.ID] {
+			return
+		}
+		emitted[t.ID] = true
+		for _, a := range t.Args {
+			emit(a)
+		}
+		switch t.Op {
+		case OVar:
+			fmt.Fprintf(&sb, "(declare-fun %s () %s)\n", quoteName(t.Name), t.Sort.SMT())
+		case OApp:
+			if !declared[t.Name] {
+				declared[t.Name] = true
+				var as []string
+				for _, a := range t.Args {
+					as = append(as, a.Sort.SMT())
+				}
+				fmt.Fprintf(&sb, "(declare-fun %s (%s) %s)\n", quoteName(t.Name), strings.Join(as, " "), t.Sort.SMT())
+			}
+			fmt.Fprintf(&sb, "(define-fun t%d () %s %s)\n", t.ID, t.Sort.SMT(), t.body((*Term).ref))
+		default:
+			fmt.Fprintf(&sb, "(define-fun t%d () %s %s)\n", t.ID, t.Sort.SMT(), t.body((*Term).ref))
+		}
+	}
+	for _, l := range lits {
+		emit(l)
+	}
+	for _, v := range vals {
+		emit(v)
+	}
+	for _, l := range lits {
+		fmt.Fprintf(&sb, "(assert %s)\n", l.ref())
+	}
+	sb.WriteString("(check-sat)\n")
+	if len(vals) > 0 {
+		var refs []string
+		for _, v := range vals {
+			refs = append(refs, v.ref())
+		}
+		fmt.Fprintf(&sb, "(get-value (%s))\n", strings.Join(refs, " "))
+	}
+	return sb.String()
+}
+
+type oneShotAnswer struct {
+	res    Result
+	vals   []ModelValue
+	solver string
+	errs   string
+}
+
+func runOneShot(kind, script string, vals []*Term, timeoutMs int) oneShotAnswer {
+	var cmd *exec.Cmd
+	switch kind {
+	case "z3":
+		cmd = exec.Command("/usr/bin/z3", "-in", "-smt2", fmt.Sprintf("-T:%d", (timeoutMs+999)/1000))
+	case "z3-new":
+		cmd = exec.Command("z3-new", "-in", "-smt2", fmt.Sprintf("-T:%d", (timeoutMs+999)/1000))
+	default:
+		cmd = exec.Command("cvc5", "--lang", "smt2", "--produce-models", fmt.Sprintf("--tlimit=%d", timeoutMs))
+	}
+	cmd.Stdin = strings.NewReader(script)
+	out, _ := cmd.CombinedOutput()
+	txt := string(out)
+	ans := oneShotAnswer{res: Unknown, solver: kind}
+	lines := strings.Split(txt, "\n")
+	first := ""
+	for _, l := range lines {
+		l = strings.TrimSpace(l)
+		if l == "sat" || l == "unsat" || l == "unknown" || l == "timeout" {
+			first = l
+			break
+		}
+		if strings.Contains(l, "error") && !strings.Contains(l, "model is not available") {
+			ans.errs = l
+		}
+	}
+	switch first {
+	case "sat":
+		ans.res = Sat
+	case "unsat":
+		ans.res = Unsat
+	}
+	if ans.res == Sat && len(vals) > 0 {
+		i := strings.Index(txt, "sat")
+		rest := txt[i+3:]
+		pairs := parsePairs(rest)
+		if len(pairs) == len(vals) {
+			ans.vals = make([]ModelValue, len(vals))
+			for k, p := range pairs {
+				ans.vals[k] = parseValue(vals[k].Sort, p)
+			}
+		} else {
+			ans.res = Unknown
+			ans.errs = "could not parse model"
+		}
+	}
+	return ans
+}
+
+// OneShot decides the conjunction of lits with fresh solver processes.
+func (s *Solver) OneShot(lits []*Term, vals []*Term, timeoutMs int, solvers []string) (Result, []ModelValue) {
+	t0 := time.Now()
+	script := scriptFor(lits, vals, "")
+	if d := os.Getenv("VERIF_DUMP"); d != "" {
+		s.OneShots++
+		os.WriteFile(fmt.Sprintf("%s.%d.%d.smt2", d, os.Getpid(), s.OneShots+1000*len(lits)), []byte(script), 0o644)
+		s.OneShots--
+	}
+	if len(solvers) == 0 {
+		solvers = []string{"z3", "cvc5", "z3-new"}
+	}
+	ch := make(chan oneShotAnswer, len(solvers))
+	for _, k := range solvers {
+		go func(k string) { ch <- runOneShot(k, script, vals, timeoutMs) }(k)
+	}
+	var best oneShotAnswer
+	best.res = Unknown
+	for range solvers {
+		a := <-ch
+		if a.errs != "" && a.res == Unknown {
+			s.Errors = append(s.Errors, a.solver+": "+a.errs)
+		}
+		if a.res != Unknown {
+			best = a
+			break
+		}
+	}
+	s.Time += time.Since(t0)
+	s.Queries++
+	switch best.res {
+	case Sat:
+		s.NSat++
+	case Unsat:
+		s.NUnsat++
+	default:
+		s.NUnknown++
+	}
+	s.OneShots++
+	return best.res, best.vals
 }
